@@ -57,22 +57,132 @@ theorem C07_read_consumes (vf : VF) (length : Int) (d : Dec) (hv : vf.vd = some 
 /-- every successful page seek loads a decoder without lapping history for the link of the target
     (or none at all, to be built on the next read): nothing decoded before the seek can leak into what follows -/
 theorem C07_select_link_fresh (link : Nat) (s : VF) :
-    ((selectLink link).run s).2.vd = none ∨
-    ((selectLink link).run s).2.vd = some (freshDec s) := by
-  unfold selectLink
+    (selectLinkF link s).vd = none ∨ (selectLinkF link s).vd = some (freshDec s) := by
+  unfold selectLinkF
   by_cases h : (link : Int) ≠ s.current_link ∨ s.ready < STREAMSET
   · left
-    simp [StateT.run, bind, StateT.bind, get, getThe, MonadStateOf.get, StateT.get, modify, modifyGet, MonadStateOf.modifyGet,
-      StateT.modifyGet, pure, StateT.pure, decodeClear, restartDec, h]
+    simp only [h, if_true]
   · cases hv : s.vd with
-    | none =>
-        left
-        simp [StateT.run, bind, StateT.bind, get, getThe, MonadStateOf.get, StateT.get, modify, modifyGet, MonadStateOf.modifyGet,
-          StateT.modifyGet, pure, StateT.pure, decodeClear, restartDec, h, hv]
-    | some d =>
-        right
-        simp [StateT.run, bind, StateT.bind, get, getThe, MonadStateOf.get, StateT.get, modify, modifyGet, MonadStateOf.modifyGet,
-          StateT.modifyGet, pure, StateT.pure, decodeClear, restartDec, h, hv]
+    | none => left; simp only [h, if_false, hv, Option.map_none]
+    | some d => right; simp only [h, if_false, hv, Option.map_some]
+
+/-! ### history independence: the landing point of a seek is a function of the file (its link table) and the target -/
+
+structure Obs where
+  offset : Int
+  fill : Int
+  pcm_offset : Int
+  sel : Option (OStream × Int × Int)
+
+def obs (v : VF) : Obs :=
+  { offset := v.offset, fill := v.fill, pcm_offset := v.pcm_offset,
+    sel := if v.ready ≥ STREAMSET then some (v.os, v.current_link, v.current_serialno) else none }
+
+def LinkWF (s : VF) : Prop := s.ready ≥ STREAMSET → (0 ≤ s.current_link ∧ s.current_serialno = s.serialnos[s.current_link.toNat]!)
+
+theorem pcmTotal_all (s : VF) (h : s.ready ≥ OPENED) (hs : s.seekable = true) : pcmTotal s (-1) = sumAll s.tab := by
+  have h1 : ¬ (s.ready < OPENED) := by omega
+  have hneg : ¬ ((-1 : Int) ≥ (s.links : Int)) := by omega
+  unfold pcmTotal sumAll VF.tab
+  simp [h1, hs, hneg]
+
+theorem selectLinkF_obs (link : Nat) (s : VF) (w : LinkWF s) :
+    (selectLinkF link s).current_link = link ∧ (selectLinkF link s).current_serialno = s.serialnos[link]! ∧
+    (selectLinkF link s).ready ≥ STREAMSET ∧ (selectLinkF link s).offset = s.offset ∧ (selectLinkF link s).fill = s.fill ∧
+    (selectLinkF link s).pcm_offset = s.pcm_offset := by
+  unfold selectLinkF
+  by_cases h : (link : Int) ≠ s.current_link ∨ s.ready < STREAMSET
+  · simp only [h, if_true]
+    refine ⟨?_, ?_, ?_, ?_, ?_, ?_⟩ <;> first | trivial | rfl | exact Nat.le_refl _
+  · have hl : (link : Int) = s.current_link := by
+      by_cases e : (link : Int) = s.current_link
+      · exact e
+      · exact absurd (Or.inl e) h
+    have hr : s.ready ≥ STREAMSET := by
+      by_cases e : s.ready < STREAMSET
+      · exact absurd (Or.inr e) h
+      · omega
+    have hw := w hr
+    simp only [h, if_false]
+    refine ⟨?_, ?_, ?_, ?_, ?_, ?_⟩
+    · exact hl.symm
+    · show s.current_serialno = s.serialnos[link]!
+      rw [hw.2, ← hl]
+      simp
+    · exact hr
+    all_goals first | trivial | rfl
+
+theorem obs_select (link : Nat) (s : VF) (w : LinkWF s) (os : OStream) (po : Int) :
+    obs { (selectLinkF link s) with os := os, pcm_offset := po } =
+      { offset := s.offset, fill := s.fill, pcm_offset := po, sel := some (os, (link : Int), s.serialnos[link]!) } := by
+  obtain ⟨h1, h2, h3, h4, h5, _⟩ := selectLinkF_obs link s w
+  unfold obs
+  simp only [h1, h2, h3, h4, h5, if_true]
+
+theorem exec_obs (f : Int → M Int) (p : SeekPlan) (a b : VF) (wa : LinkWF a) (wb : LinkWF b)
+    (hs : a.serialnos = b.serialnos)
+    (hnr : ∀ l c o r, p ≠ .viaRaw l c o r) :
+    ((execPlan f p).run a).1 = ((execPlan f p).run b).1 ∧ obs ((execPlan f p).run a).2 = obs ((execPlan f p).run b).2 := by
+  cases p with
+  | fail rc cur =>
+      simp [execPlan, setCur, seekError, decodeClear, StateT.run, bind, StateT.bind, modify, modifyGet, MonadStateOf.modifyGet,
+        StateT.modifyGet, pure, StateT.pure, obs, OPENED, STREAMSET, Generated.OPENED, Generated.STREAMSET]
+  | failSel link cur os rc =>
+      simp [execPlan, setCur, seekError, decodeClear, selectLink, StateT.run, bind, StateT.bind, modify, modifyGet, MonadStateOf.modifyGet,
+        StateT.modifyGet, pure, StateT.pure, obs, OPENED, STREAMSET, Generated.OPENED, Generated.STREAMSET]
+      unfold selectLinkF
+      split <;> split <;> simp
+  | land link cur os po =>
+      have la := obs_select link { a with offset := cur.off, fill := cur.fill } (by intro h; exact wa h) os po
+      have lb := obs_select link { b with offset := cur.off, fill := cur.fill } (by intro h; exact wb h) os po
+      simp only [execPlan, setCur, selectLink, StateT.run, bind, StateT.bind, modify, modifyGet, MonadStateOf.modifyGet,
+        StateT.modifyGet, pure, StateT.pure]
+      constructor
+      · trivial
+      · show obs { (selectLinkF link { a with offset := cur.off, fill := cur.fill }) with os := os, pcm_offset := po } =
+             obs { (selectLinkF link { b with offset := cur.off, fill := cur.fill }) with os := os, pcm_offset := po }
+        rw [la, lb]
+        simp only [hs]
+  | viaRaw l c o r => exact absurd rfl (hnr l c o r)
+
+/- non-vacuity: a handle right after a successful seekable open of a two-link file, and the same handle after reads and a dumped decoder, satisfy the premises -/
+example : LinkWF { ready := STREAMSET, current_link := 0, current_serialno := 7, serialnos := #[7, 9], links := 2 } ∧
+          LinkWF { ready := OPENED, current_link := 5, current_serialno := 0, serialnos := #[7, 9], links := 2 } := by
+  constructor
+  · intro _; exact ⟨by decide, by decide⟩
+  · intro h; exact absurd h (by decide)
+
+/-- **C07_page_seek_history_independent**: two handles on the same file (same link table), whatever was done with them before —
+    reads, seeks, failed seeks, a dumped decoder, any cursor — return the same code from `ov_pcm_seek_page(pos)` and end up
+    with the same byte cursor, sample position, packet queue and selected link -/
+theorem C07_page_seek_history_independent (ph : Phys) (f : Int → M Int) (pos : Int) (a b : VF)
+    (ht : a.tab = b.tab) (ha : a.ready ≥ OPENED) (hb : b.ready ≥ OPENED) (sa : a.seekable = true) (sb : b.seekable = true)
+    (wa : LinkWF a) (wb : LinkWF b) (hp : 0 ≤ pos ∧ pos ≤ sumAll a.tab)
+    (hnr : ∀ l c o r, planSeekPage ph a.tab pos ≠ .viaRaw l c o r) :
+    ((pcmSeekPage ph f pos).run a).1 = ((pcmSeekPage ph f pos).run b).1 ∧
+    obs ((pcmSeekPage ph f pos).run a).2 = obs ((pcmSeekPage ph f pos).run b).2 := by
+  have ta := pcmTotal_all a ha sa
+  have tb := pcmTotal_all b hb sb
+  have h1a : ¬ (a.ready < OPENED) := by omega
+  have h1b : ¬ (b.ready < OPENED) := by omega
+  have hra : ¬ (pos < 0 ∨ pos > pcmTotal a (-1)) := by rw [ta]; omega
+  have hrb : ¬ (pos < 0 ∨ pos > pcmTotal b (-1)) := by rw [tb, ← ht]; omega
+  have hser : a.serialnos = b.serialnos := by
+    have := congrArg Tab.serialnos ht
+    simpa [VF.tab] using this
+  have ea : (pcmSeekPage ph f pos).run a = (execPlan f (planSeekPage ph a.tab pos)).run a := by
+    unfold pcmSeekPage
+    have n1 : ¬ (pos < 0) := by omega
+    have n2 : ¬ (pcmTotal a (-1) < pos) := by rw [ta]; omega
+    simp [StateT.run, bind, StateT.bind, get, getThe, MonadStateOf.get, StateT.get, pure, StateT.pure, h1a, sa, n1, n2]
+  have eb : (pcmSeekPage ph f pos).run b = (execPlan f (planSeekPage ph a.tab pos)).run b := by
+    unfold pcmSeekPage
+    have n1 : ¬ (pos < 0) := by omega
+    have n2 : ¬ (pcmTotal b (-1) < pos) := by rw [tb, ← ht]; omega
+    simp [StateT.run, bind, StateT.bind, get, getThe, MonadStateOf.get, StateT.get, pure, StateT.pure, h1b, sb, n1, n2, ht]
+  rw [ea, eb]
+  exact exec_obs f _ a b wa wb hser hnr
+
 
 example : readAvail { ready := INITSET, vd := some { lW := false, W := false, cW := 0, cur := 10, ret := 4, gran := -1, seq := 0, sc := 0, eof := false } } = 6 := by decide
 
